@@ -10,6 +10,7 @@ import (
 	"github.com/nyaruka/gocommon/i18n"
 	"github.com/nyaruka/gocommon/urns"
 	"github.com/nyaruka/goflow/assets"
+	"github.com/nyaruka/goflow/assets/static"
 	"github.com/nyaruka/goflow/envs"
 	"github.com/nyaruka/goflow/flows"
 	"github.com/nyaruka/goflow/flows/engine"
@@ -384,6 +385,8 @@ func runC03(c *Ctx) {
 	for i := 0; i < n; i++ {
 		runContactSprintCase(c, r, i, "C03")
 	}
+	// ---- K: the channel modifier against its model ----
+	c03ChannelMod(c)
 }
 
 // a flow of contact-changing actions run under a msg trigger and msg resumes: the sprint's contact events must replay to
@@ -581,4 +584,146 @@ func runContactSprintCase(c *Ctx, r *Rng, i int, prop string) {
 			check(call, before, sp, seenOn)
 		}
 	})
+}
+
+// ---------------------------------------------------------------------------------------------------------------------
+// K:chanmod — the channel modifier against its model (Contact/Channel.lean): every shape of URN list (four schemes, with and
+// without affinity to any of the channels, also to channels of another scheme) x every channel (one that cannot send, ones for
+// one and for several schemes, none), applied twice
+// ---------------------------------------------------------------------------------------------------------------------
+
+const c03ChannelAssets = `{
+  "channels": [
+    {"uuid": "c0000000-0000-4000-8000-000000000001", "name": "Android", "address": "+17036975131", "schemes": ["tel"], "roles": ["send", "receive"]},
+    {"uuid": "c0000000-0000-4000-8000-000000000002", "name": "Inbound", "address": "+17036975132", "schemes": ["tel"], "roles": ["receive"]},
+    {"uuid": "c0000000-0000-4000-8000-000000000003", "name": "Social", "address": "nyaruka", "schemes": ["twitter", "whatsapp"], "roles": ["send", "receive"]},
+    {"uuid": "c0000000-0000-4000-8000-000000000004", "name": "Multi", "address": "+17036975134", "schemes": ["tel", "whatsapp"], "roles": ["send", "receive"]},
+    {"uuid": "c0000000-0000-4000-8000-000000000005", "name": "Facebook", "address": "1234", "schemes": ["facebook"], "roles": ["send"]}
+  ]
+}`
+
+func c03ChannelMod(c *Ctx) {
+	r := c.Rng
+	src, err := static.NewSource([]byte(c03ChannelAssets))
+	if err != nil {
+		c.Fail("monitor", "harness", "channel-assets", "channel modifier assets rejected: "+err.Error(), nil)
+		return
+	}
+	env := envs.NewBuilder().Build()
+	sa, err := engine.NewSessionAssets(env, src, nil)
+	if err != nil {
+		c.Fail("monitor", "harness", "channel-assets", "channel modifier assets rejected: "+err.Error(), nil)
+		return
+	}
+	eng := engine.NewBuilder().Build()
+	schemes := []string{"tel", "twitter", "facebook", "whatsapp"}
+	schemeID := map[string]int{"tel": 0, "twitter": 1, "facebook": 2, "whatsapp": 3}
+	chanUUID := func(i int) string { return fmt.Sprintf("c0000000-0000-4000-8000-%012d", i) }
+	chanSpec := map[int]string{1: "1:1:0", 2: "2:0:0", 3: "3:1:1,3", 4: "4:1:0,3", 5: "5:1:2"}
+	path := func(scheme string, k int) string {
+		switch scheme {
+		case "tel":
+			return fmt.Sprintf("+1206555000%d", k)
+		case "twitter":
+			return fmt.Sprintf("user%d", k)
+		case "facebook":
+			return fmt.Sprintf("10%d", k)
+		}
+		return fmt.Sprintf("1206555111%d", k)
+	}
+	show := func(cn *flows.Contact) string {
+		var out []string
+		for _, u := range cn.URNs() {
+			s := u.URN().Scheme()
+			k := int(u.URN().Path()[len(u.URN().Path())-1] - '0')
+			ch := "-"
+			if u.Channel() != nil {
+				ch = fmt.Sprint(int(u.Channel().UUID()[len(u.Channel().UUID())-1] - '0'))
+			}
+			// the URN's own text must say the same channel as the object
+			q, _ := u.URN().Query()
+			if (u.Channel() == nil) != (q.Get("channel") == "") || (u.Channel() != nil && q.Get("channel") != string(u.Channel().UUID())) {
+				ch += "!text-says-" + q.Get("channel")
+			}
+			out = append(out, fmt.Sprintf("%d:%d:%s", schemeID[s], k, ch))
+		}
+		if len(out) == 0 {
+			return "_"
+		}
+		return strings.Join(out, ";")
+	}
+	for i := 0; i < c.N(3000, 120000); i++ {
+		n := r.Intn(5)
+		var raw []urns.URN
+		for k := 0; k < n; k++ {
+			s := Pick(r, schemes)
+			u := s + ":" + path(s, k)
+			if r.Chance(55) {
+				u += "?channel=" + chanUUID(r.Range(1, 5))
+			}
+			raw = append(raw, urns.URN(u))
+		}
+		chIdx := r.Intn(6) // 0 = no channel
+		desc := map[string]any{"urns": raw, "channel": chIdx}
+		var line1, line2, before string
+		if c.Guard("K-chanmod", "panic:channel-modifier", desc, func() {
+			contact, err := flows.NewContact(sa, "5d76d86b-3bb9-4d5a-b822-c9d86f5d8e4f", 7, "Ann", "eng", flows.ContactStatusActive, nil, time.Date(2020, 1, 1, 0, 0, 0, 0, time.UTC), nil, raw, nil, nil, nil, assets.PanicOnMissing)
+			if err != nil {
+				return
+			}
+			before = show(contact)
+			var ch *flows.Channel
+			if chIdx > 0 {
+				ch = sa.Channels().Get(assets.ChannelUUID(chanUUID(chIdx)))
+			}
+			apply := func() string {
+				var evs []flows.Event
+				mod := modifiers.NewChannel(ch).Apply(eng, env, sa, contact, func(e flows.Event) { evs = append(evs, e) })
+				ev := "none"
+				switch {
+				case len(evs) > 1:
+					ev = "several"
+				case len(evs) == 1 && evs[0].Type() == "error":
+					ev = "error"
+				case len(evs) == 1 && evs[0].Type() == "contact_urns_changed":
+					ev = "changed"
+					b, _ := json.Marshal(evs[0])
+					var got struct {
+						URNs []urns.URN `json:"urns"`
+					}
+					json.Unmarshal(b, &got)
+					if fmt.Sprint(got.URNs) != fmt.Sprint(contact.URNs().RawURNs()) {
+						ev = "changed-with-another-list"
+					}
+				case len(evs) == 1:
+					ev = evs[0].Type()
+				}
+				m := 0
+				if mod {
+					m = 1
+				}
+				return fmt.Sprintf("mod=%d ev=%s urns=%s", m, ev, show(contact))
+			}
+			line1 = apply()
+			mid := show(contact)
+			line2 = mid + "|" + apply()
+		}) || before == "" {
+			continue
+		}
+		spec := "-"
+		if chIdx > 0 {
+			spec = chanSpec[chIdx]
+		}
+		desc["before"], desc["first_application"] = before, line1
+		c.Eval(fmt.Sprintf("chanmod|%d|%d|%s", n, chIdx, strings.SplitN(line1, " urns=", 2)[0]))
+		c.Model("chanmod", fmt.Sprintf("chanmod %s %s", spec, before), line1, desc)
+		parts := strings.SplitN(line2, "|", 2)
+		c.Model("chanmod", fmt.Sprintf("chanmod %s %s", spec, parts[0]), parts[1], desc)
+		// M: the second application changes and reports nothing
+		c.Count("check:M-idempotent-channel")
+		if !strings.HasPrefix(parts[1], "mod=0 ") || strings.Contains(parts[1], "ev=changed") || !strings.HasSuffix(parts[1], "urns="+parts[0]) {
+			desc["second_application"] = parts[1]
+			c.Fail("monitor", "M-idempotent", "channel-modifier-not-idempotent", "the channel modifier applied a second time changes or reports something", desc)
+		}
+	}
 }
